@@ -27,6 +27,9 @@ def diff_stream(v, name, o, im):
         if "instrs_err" in ic:
             out.append(("stream:%d" % k, "Bytecode iteration raised %s" % ic["instrs_err"], {"code_index": k}))
             continue
+        if "reiter" in ic:
+            out.append(("reiter:%d" % k, "iterating the same Bytecode object again does not give the same stream: %s" % ic["reiter"],
+                        {"code_index": k, "reiter": ic["reiter"]}))
         if "instrs" in oc:
             want = [[i[0], i[1], i[2], i[3]] for i in oc["instrs"] if i[2] != "CACHE"]
         else:
